@@ -57,4 +57,15 @@ for pf in (13, 31):
                            ("point_add_inplace", "h_point_add_inplace", "sm2_z256_point_add with R == A = group law")):
             OBLIGATIONS.append(pt("%s.z%d" % (nm, z1), en, ti, pf, tier=tz, defs=["-DPF=%d" % pf, "-DZ1FIX=%d" % z1],
                                   bounds="field F_%d, every non-singular curve y^2 = x^3 - 3x + b, all affine points without 2-torsion; first operand with Jacobian Z = %d, second operand every representative; both infinity encodings" % (pf, z1)))
+
+DLOG_RM = ["sm2_z256_point_set_infinity", "sm2_z256_point_dbl", "sm2_z256_point_add", "sm2_z256_point_sub", "sm2_z256_point_neg", "sm2_z256_point_copy_affine",
+           "sm2_z256_point_add_affine", "sm2_z256_point_sub_affine", "sm2_z256_print", "sm2_z256_point_print", "sm2_z256_point_affine_print", "sm2_z256_from_hex", "sm2_z256_equ_hex",
+           "sm2_z256_point_from_hex", "sm2_z256_point_equ_hex", "sm2_z256_point_from_hash", "sm2_z256_point_to_der", "sm2_z256_point_from_der", "sm2_z256_rand_range"]
+for route, nm, ti in ((0, "point_mul", "sm2_z256_point_mul"), (1, "point_mul_ex", "point_mul_pre_compute + point_mul_ex"), (2, "mul_generator", "sm2_z256_point_mul_generator (37 x 64 table)"), (3, "mul_sum", "sm2_z256_point_mul_sum")):
+    OBLIGATIONS.append({"id": "C13-f.%s.q13" % nm, "harness": "harness/C13/scalarmul.c", "entry": "h_scalar_mul", "units": ["sm2_z256.c"], "models": ["models/sm2_dlog.c"],
+                        "remove": {"sm2_z256.c": DLOG_RM}, "defs": ["-DDQ=13", "-DROUTE=%d" % route], "unwind": 70, "timeout": 3600, "field_sens": 64, "object_bits": 13, "mem_gb": 24,
+                        "cbmc": ["--max-field-sensitivity-array-size", "64"], "tier": "thorough", "backends": ["kissat", "cadical", "minisat"],
+                        "title": ti + ": result = [k]P for every 256-bit scalar (window loops, Booth digits, table look-ups over the discrete-log image of the group)",
+                        "bounds": "all 256-bit scalars; group order q = 13 (discrete-log model); base point index 1..12, normalised or not",
+                        "stubs": ["group = Z_13 (models/sm2_dlog.c): point ops are index arithmetic, generator table entry [i][j] = (j+1) 2^(7i)"]})
 NOTE = "C13: SM2 256-bit arithmetic layer (portable C back end)."
